@@ -150,6 +150,22 @@ fn main() {
         evaluations += 1;
     }
     let _ = process_type!("web");
+    // a working directory that TOML cannot hold (a legal Unix path that is not UTF-8): nothing an
+    // independent reader could turn back into the constructed process may be written silently
+    for (k, bytes) in [b"/workspace/caf\xe9".to_vec(), b"\xff".to_vec(), b"rel/\xc3\x28/x".to_vec()].into_iter().enumerate() {
+        use std::os::unix::ffi::OsStringExt;
+        let wd = PathBuf::from(std::ffi::OsString::from_vec(bytes.clone()));
+        let mut b = ProcessBuilder::new("web".parse().unwrap(), ["cmd"]);
+        b.working_directory(WorkingDirectory::Directory(wd));
+        let launch = LaunchBuilder::new().process(b.build()).build();
+        let path = out.dir.join(format!("nonutf8-{k}.toml"));
+        if write_toml_file(&launch, &path).is_ok() {
+            out.problems.push(Mismatch { signature: "non-UTF-8 working directory written without an error".into(),
+                detail: format!("working directory bytes {bytes:?} were written as {:?}", std::fs::read_to_string(&path).unwrap_or_default()), case: json!({"bytes": bytes}) });
+        }
+        let _ = std::fs::remove_file(&path);
+        evaluations += 1;
+    }
     // seeded documents: layer content metadata, store, package descriptor, exec.d output
     let n_seeded: usize = std::env::var("VERIF_DOCS").ok().and_then(|s| s.parse().ok()).unwrap_or(400);
     for i in 0..n_seeded {
@@ -172,10 +188,10 @@ fn main() {
             other => out.problems.push(Mismatch { signature: "store read back differs".into(), detail: format!("{other:?}"), case: json!({"metadata": md}) }),
         }
         // package descriptor
-        let uris = ["libcnb:verif/x", "../rel/some-path", "/abs/path", "docker://docker.io/a/b:1", "https://e.com/x.cnb?a=1#f", "urn:cnb:registry:a/b@1"];
+        let uris = ["libcnb:verif/x", "../rel/some-path", "/abs/path", "docker://docker.io/a/b:1", "https://e.com/x.cnb?a=1#f", "urn:cnb:registry:a/b@1", "docker://Registry.Example.COM:5000/a/../b%7ec/./y:1", "https://Example.com/%7Euser/x.cnb"];
         let deps: Vec<&str> = (0..r.usize(0..4)).map(|_| uris[r.usize(..uris.len())]).collect();
         let os = ["linux", "windows"][r.usize(..2)];
-        let bp_uri = [".", "./sub", "docker://x/y"][r.usize(..3)];
+        let bp_uri = [".", "./sub", "docker://x/y", "https://Example.COM/a/./b/../c.cnb"][r.usize(..4)];
         let mut text = format!("[buildpack]\nuri = \"{bp_uri}\"\n");
         for d in &deps { text.push_str(&format!("\n[[dependencies]]\nuri = \"{d}\"\n")); }
         text.push_str(&format!("\n[platform]\nos = \"{os}\"\n"));
